@@ -555,6 +555,25 @@ class Engine(OpsMixin):
             if name == "add" and (deep_sym(args[0]) or id(recv) in self.symsets):
                 self.set_add(recv, args[0])
                 return None
+            if name in ("discard", "remove") and (deep_sym(args[0]) or id(recv) in self.symsets):
+                ent = self.symsets.setdefault(id(recv), (recv, []))[1]
+                for k in list(recv):
+                    c = self.cmp("Eq", args[0], k)
+                    if c is False:
+                        continue
+                    if self.truth(c):
+                        recv.discard(k)
+                        return None
+                for i, k in enumerate(ent):
+                    c = self.cmp("Eq", args[0], k)
+                    if c is False:
+                        continue
+                    if self.truth(c):
+                        del ent[i]
+                        return None
+                if name == "remove":
+                    raise KeyError(_ExcArg(args[0]))
+                return None
             if name in self.DATA_MOVERS[set] and not any(deep_sym(a) for a in args):
                 return fn(*args, **kwargs)
         return NotImplemented
